@@ -52,6 +52,7 @@ type Point struct {
 
 // MutexState is the model state of one RWMutex.
 type MutexState struct {
+	ID64      int64 // id given outside explorations (library objects); set atomically
 	ID        int
 	writer    *Thread
 	readers   int
@@ -306,6 +307,9 @@ func (s *Sched) touch(m *MutexState, me *Thread) {
 			m.ID = 0
 		}
 	}
+	if m.ID == 0 && m.ID64 != 0 {
+		m.ID = int(m.ID64)
+	}
 	if m.ID == 0 {
 		if me == nil || me.ID < 0 {
 			s.setupCtr++
@@ -415,8 +419,9 @@ func (s *Sched) MRUnlock(m *MutexState, class Class) {
 
 // InactiveID gives objects used outside any exploration (library loading) a stable id.
 func InactiveID(m *MutexState) {
-	if m.ID == 0 {
-		m.ID = int(globalObjCtr.Add(1))
+	// may be called by several free-running goroutines at once (race pass): atomic
+	if atomic.LoadInt64(&m.ID64) == 0 {
+		atomic.CompareAndSwapInt64(&m.ID64, 0, globalObjCtr.Add(1))
 	}
 }
 
